@@ -442,6 +442,8 @@ def op_oracle(ctx, lines, outs, infos_by_line):
 
     for l, o, info in zip(lines, outs, infos_by_line):
         w = l.split(" ", 1)[0]
+        if o == "bad-op" or o.startswith("model"):
+            continue
         if w == "cycle":
             a, ta = l.split(" | ")
             i, ta = int(a.split()[1]), ints(ta)
